@@ -131,7 +131,28 @@ pub struct KnownFindings {
 }
 
 impl KnownFindings {
+    /// Loads `path` and, next to it, every `known_findings.d/*.json` (same format; one file per
+    /// engine so that concurrent writers never clobber each other).
     pub fn load(path: &Path) -> KnownFindings {
+        let mut k = KnownFindings::default();
+        if let Some(dir) = path.parent() {
+            if let Ok(rd) = std::fs::read_dir(dir.join("known_findings.d")) {
+                let mut files: Vec<PathBuf> = rd.flatten().map(|e| e.path()).collect();
+                files.sort();
+                for f in files {
+                    if f.extension().is_some_and(|x| x == "json") {
+                        let sub = KnownFindings::load_one(&f);
+                        k.known.extend(sub.known);
+                    }
+                }
+            }
+        }
+        let main = KnownFindings::load_one(path);
+        k.known.extend(main.known);
+        k
+    }
+
+    fn load_one(path: &Path) -> KnownFindings {
         let mut k = KnownFindings::default();
         let Ok(txt) = std::fs::read_to_string(path) else {
             return k;
@@ -592,6 +613,15 @@ impl Ctx {
 
     pub fn evaluations(&self) -> u64 {
         self.evaluations
+    }
+    /// Number of cases counted as excluded so far (generator noise etc.), not counting cases
+    /// that hit a listed known finding.
+    pub fn excluded_count(&self) -> u64 {
+        self.excluded
+            .iter()
+            .filter(|(k, _)| k.as_str() != "known-finding")
+            .map(|(_, v)| *v)
+            .sum()
     }
     pub fn distinct_nontrivial(&self) -> u64 {
         self.nontrivial.len() as u64
